@@ -241,6 +241,13 @@ def dfxp_reference_check(root):
             used_regions.add(r)
             if regions.get(r, 0) != 1:
                 problems.append(f"region={r!r} resolves to {regions.get(r, 0)} definitions")
+    # references inside the head: a <style> chained to another one, a <region> that names a style
+    for e in (head.iter() if head is not None else []):
+        s = e.get("style")
+        if s is not None:
+            for ref in s.split():
+                if styles.get(ref, 0) != 1:
+                    problems.append(f"<{e.tag.split('}')[-1]} xml:id={e.get(f'{{{XMLNS}}}id')!r}> in the head has style={ref!r}, which resolves to {styles.get(ref, 0)} definitions")
     for r in regions:
         if r not in used_regions:
             problems.append(f"region {r!r} is defined but not referenced")
